@@ -327,7 +327,7 @@ Proof.
   - eexists; split; [reflexivity|]. split; [|split].
     + unfold good; simpl. rewrite Hl, (fr_len _ _ _ _ F1). repeat split; try congruence; try lia.
       intro k. rewrite G1, G, Hx. bdestr. rewrite cget_ge; auto; lia.
-    + rewrite Hl. eapply bal_of with (dc := 0%N) (dd := 1%N); simpl.
+    + rewrite Hl. eapply bal_of with (dc := 0%N) (dd := 1%N); cbn [nctor ndtor set_size].
       * rewrite (fr_ctor _ _ _ _ F1); lia.
       * rewrite (fr_dtor _ _ _ _ F1); lia.
       * lia.
@@ -339,7 +339,7 @@ Proof.
     rewrite E2; cbn [bind]. eexists; split; [reflexivity|]. split; [|split].
     + unfold good; simpl. rewrite Hl, (fr_len _ _ _ _ F2), (fr_len _ _ _ _ F1). repeat split; try congruence; try lia.
       intro k. rewrite G2, G1, G, Hx, Hsz. bdestr. rewrite cget_ge; auto; lia.
-    + rewrite Hl. eapply bal_of with (dc := 1%N) (dd := 2%N); simpl.
+    + rewrite Hl. eapply bal_of with (dc := 1%N) (dd := 2%N); cbn [nctor ndtor set_size].
       * rewrite (fr_ctor _ _ _ _ F2), (fr_ctor _ _ _ _ F1); lia.
       * rewrite (fr_dtor _ _ _ _ F2), (fr_dtor _ _ _ _ F1); lia.
       * lia.
@@ -357,7 +357,7 @@ Proof.
   rewrite E1; simpl. eexists; split; [reflexivity|]. split; [|split].
   - unfold good; simpl. repeat split; try congruence; try lia.
     intro k. rewrite G1, G, cget_nil. bdestr. apply cget_ge; lia.
-  - eapply bal_of with (dc := 0%N) (dd := N.of_nat (size s)); simpl.
+  - eapply bal_of with (dc := 0%N) (dd := N.of_nat (size s)); cbn [nctor ndtor set_size].
     + rewrite (fr_ctor _ _ _ _ F1); lia.
     + rewrite (fr_dtor _ _ _ _ F1); lia.
     + lia.
@@ -378,7 +378,7 @@ Proof.
   { intros j Hj. rewrite G. bdestr. }
   rewrite E2; simpl. eexists; split; [reflexivity|]. split; [|split].
   - rewrite (fr_size _ _ _ _ F2), Hsz. apply (gap_filled s1 s2); auto. congruence. apply (fr_len _ _ _ _ F2).
-  - rewrite splice_length by lia. eapply bal_of with (dc := (d + N.of_nat (length vs))%N) (dd := d); simpl.
+  - rewrite splice_length by lia. eapply bal_of with (dc := (d + N.of_nat (length vs))%N) (dd := d); cbn [nctor ndtor set_size].
     + rewrite (fr_ctor _ _ _ _ F2); lia.
     + rewrite (fr_dtor _ _ _ _ F2); lia.
     + lia.
@@ -401,7 +401,7 @@ Proof.
     replace n with (length (repeat v n)) at 1 by apply repeat_length.
     apply (gap_filled s1 s2); rewrite ?repeat_length; auto. congruence. apply (fr_len _ _ _ _ F2).
     intro j. rewrite G2, cget_repeat. bdestr.
-  - rewrite splice_length, repeat_length by lia. eapply bal_of with (dc := (d + N.of_nat n)%N) (dd := d); simpl.
+  - rewrite splice_length, repeat_length by lia. eapply bal_of with (dc := (d + N.of_nat n)%N) (dd := d); cbn [nctor ndtor set_size].
     + rewrite (fr_ctor _ _ _ _ F2); lia.
     + rewrite (fr_dtor _ _ _ _ F2); lia.
     + lia.
@@ -420,7 +420,7 @@ Proof.
   - rewrite (fr_size _ _ _ _ F2), Hsz. replace (S (length xs)) with (length xs + length [v]) by (simpl; lia).
     apply (gap_filled s1 s2); auto. congruence. apply (fr_len _ _ _ _ F2).
     intro j. rewrite G2. simpl. bdestr. subst j. rewrite Nat.sub_diag. reflexivity.
-  - rewrite splice_length by lia. simpl. eapply bal_of with (dc := (d + 1)%N) (dd := d); simpl.
+  - rewrite splice_length by lia. simpl. eapply bal_of with (dc := (d + 1)%N) (dd := d); cbn [nctor ndtor set_size].
     + rewrite (fr_ctor _ _ _ _ F2); lia.
     + rewrite (fr_dtor _ _ _ _ F2); lia.
     + lia.
